@@ -43,7 +43,7 @@ def load_known():
 def match_items(items, patterns):
     out = []
     for it in items:
-        if it.get('mode') != 'verified' and not it.get('mode', '').startswith('external_body'):
+        if it.get('mode') != 'verified' and not it.get('mode', '').startswith(('external_body', 'demoted')):
             continue
         if any(re.search(p, it['item']) for p in patterns):
             out.append(it)
@@ -62,7 +62,7 @@ def verus_phase(prop, spec, workdir, ev):
     mine = match_items(res.items, spec['verus'])
     kinds = spec['kinds']
     kf_open = {k['obligation']: k for k in load_known() if k.get('status') == 'open' and k.get('property') == prop and k.get('obligation')}
-    verified_items = [i for i in mine if i['mode'] == 'verified' and i['item'] not in kf_open]
+    verified_items = [i for i in mine if (i['mode'] == 'verified' or i['mode'].startswith('demoted')) and i['item'] not in kf_open]
     kf_items = [i for i in mine if i['mode'] == 'verified' and i['item'] in kf_open]
     res.kf_lines = []
     res.kf_gone = []
@@ -76,7 +76,7 @@ def verus_phase(prop, spec, workdir, ev):
     failing = {}
     for it in verified_items:
         fl = res.failures.get(it['item'], [])
-        rel = [f for f in fl if f['kind'] in kinds or f['kind'] == 'rlimit']
+        rel = [f for f in fl if f['kind'] in kinds or f['kind'] in ('rlimit', 'unsupported')]
         if rel:
             failing[it['item']] = rel
         if not res.checked.get(it['item'], False):
@@ -91,18 +91,18 @@ def verus_phase(prop, spec, workdir, ev):
             if r2.fatal:
                 break
             for key in list(still):
-                fl = [f for f in r2.failures.get(key, []) if f['kind'] in kinds or f['kind'] == 'rlimit']
+                fl = [f for f in r2.failures.get(key, []) if f['kind'] in kinds or f['kind'] in ('rlimit', 'unsupported')]
                 if not fl and not any(f['kind'] == 'missing' for f in still[key]):
                     retried[key] = {'discharged_with_seed': seed, 'first_failure': still[key][0]['kind']}
                     del still[key]
-                elif fl and all(f['kind'] != 'rlimit' for f in fl):
+                elif fl and all(f['kind'] not in ('rlimit', 'unsupported') for f in fl):
                     still[key] = fl     # keep the most informative (non-rlimit) failure
             if not still:
                 break
         failing = still
     refuted, undecided = {}, {}
     for key, fl in failing.items():
-        real = [f for f in fl if f['kind'] not in ('rlimit', 'missing')]
+        real = [f for f in fl if f['kind'] not in ('rlimit', 'missing', 'unsupported')]
         if real:
             refuted[key] = real
         else:
